@@ -501,6 +501,7 @@ fn c02_decide(case: &AuthCase, o: &Obs) -> Verdict {
 }
 
 fn c02_cookie_strategy(client_addr: String, expiry: u64) -> BoxedStrategy<(Option<CookieSpec>, Option<Vec<u8>>)> {
+    let client_addr2 = client_addr.clone();
     let client_ip = client_addr.parse::<SocketAddr>().unwrap().ip();
     let same_ip_other_port = SocketAddr::new(client_ip, 1).to_string();
     let addr = prop_oneof![
@@ -534,7 +535,11 @@ fn c02_cookie_strategy(client_addr: String, expiry: u64) -> BoxedStrategy<(Optio
     ];
     let other_secret = prop_oneof![5 => Just(None), 1 => proptest::collection::vec(any::<u8>(), 0..40).prop_map(Some)];
     let spec = (age, addr, gens::identity(), proptest::option::of("[a-z0-9-]{0,12}"), other_secret, mutation)
-        .prop_map(|(age, addr, identity, target, other_secret, mutation)| CookieSpec { age, addr, identity, target, other_secret, mutation });
+        .prop_map(move |(age, addr, identity, target, other_secret, mutation)| {
+            // an address that differs only by IPv4-mapping from the client's is neither "same" nor "other"
+            let addr = if gens::same_canonical_ip(&addr, &client_addr2) { "192.0.2.200:1".to_string() } else { addr };
+            CookieSpec { age, addr, identity, target, other_secret, mutation }
+        });
     prop_oneof![
         1 => Just((None, None)),
         1 => Just((None, Some(Vec::new()))),
